@@ -31,6 +31,7 @@ pub fn generate(family: &str, cfg: &LensCfg) -> Vec<Vec<Op>> {
         // collector's dropping phase when #0 is garbage.
         "g3b" => g3(cfg, false, true),
         "g4n" => g4n(cfg),
+        "ga" => ga(cfg),
         other => panic!("unknown seed family {}", other),
     }
 }
@@ -254,6 +255,54 @@ fn g4n(cfg: &LensCfg) -> Vec<Vec<Op>> {
                                 }
                             }
                         }
+                    }
+                }
+            }
+        }
+    }
+    out
+}
+
+
+/// Family ga (automatic collections on): #0 = G is a garbage-to-be self-cycle with a scripted finalizer or destructor;
+/// k ballast objects are created, a collection runs while they are alive (which raises the byte threshold above what
+/// the scripts will allocate) and they are released again; the buffered-objects threshold is set to 1 or 2 (or left
+/// unset); finally G's handle is dropped (or kept).
+fn ga(cfg: &LensCfg) -> Vec<Vec<Op>> {
+    assert!(cfg.nvars >= 4 && cfg.nobj >= 6, "seed family ga needs --v 4 --n 6 (or more)");
+    let mut out: Vec<Vec<Op>> = Vec::new();
+    for ballast in 0..=3u8 {
+        for thr in [0u8, 1, 2] {
+            for fin in &cfg.fin_menu {
+                for dr in &cfg.drop_menu {
+                    if *fin == 0 && *dr == 0 {
+                        continue;
+                    }
+                    for keep in [false, true] {
+                        let mut h: Vec<Op> = vec![op(New, 0, 0, 0), op(Dup, 0, 3, 0), op(Store, 0, 0, 3)];
+                        for b in 0..ballast {
+                            h.push(op(New, 1 + (b % 3), 0, 0));
+                            if b == 2 {
+                                // only three free variables: the third ballast object replaces nothing, v3 is free again
+                            }
+                        }
+                        h.push(op(Collect, 0, 0, 0));
+                        for b in 0..ballast.min(3) {
+                            h.push(op(Drop, 1 + b, 0, 0));
+                        }
+                        if thr != 0 {
+                            h.push(op(SetBufThr, thr, 0, 0));
+                        }
+                        if *fin != 0 {
+                            h.push(op(SetFin, 0, *fin, 0));
+                        }
+                        if *dr != 0 {
+                            h.push(op(SetDrop, 0, *dr, 0));
+                        }
+                        if !keep {
+                            h.push(op(Drop, 0, 0, 0));
+                        }
+                        out.push(h);
                     }
                 }
             }
